@@ -1,10 +1,14 @@
 //! I->S recorder for C03: random programs of 1..400 calls on a real
-//! `NameBuilder<Vec<u8>>`, argument sizes biased towards the label and name
-//! limits, one event per call.  usage: record_names <out.ndjson> <seed> <max-events>
+//! `NameBuilder` over `Vec<u8>` or `BytesMut`, made by any of its
+//! constructors, argument sizes biased towards the label and name limits,
+//! one event per call.  usage: record_names <out.ndjson> <seed> <max-events>
 #[path = "../names.rs"]
 mod names;
 
+use bytes::BytesMut;
+use domain::base::name::NameBuilder;
 use names::*;
+use octseq::builder::{FreezeBuilder, OctetsBuilder};
 use serde_json::{json, Value};
 use verif_harness::common::*;
 
@@ -46,17 +50,28 @@ fn main() {
         } else {
             vec![]
         };
-        let mut b = if start.is_empty() {
-            B::new_vec()
+        if rng.chance(1, 2) {
+            program::<Vec<u8>>(&mut w, &mut rng, &mut fill, &start, plen, greedy);
         } else {
-            let rel = rel_of(&json!(start), &mut fill);
-            if rng.chance(1, 2) {
-                rel.into_builder()
-            } else {
-                B::from_builder(rel.as_slice().to_vec()).expect("from_builder on a valid relative name")
-            }
+            program::<BytesMut>(&mut w, &mut rng, &mut fill, &start, plen, greedy);
+        }
+    }
+    let n = w.finish();
+    println!("events {}", n);
+}
+
+fn program<T>(w: &mut TraceWriter, rng: &mut Rng, fill: &mut Fill, start: &[usize], plen: u64, greedy: u64)
+where
+    T: OctetsBuilder + AsRef<[u8]> + AsMut<[u8]> + FreezeBuilder + Clone + Ctor,
+    T::Octets: AsRef<[u8]>,
+{
+        let how = rng.below(1000) as usize;
+        let mut b: NameBuilder<T> = if start.is_empty() {
+            T::ctor(how)
+        } else {
+            T::from_rel(rel_of(&json!(start), fill), how)
         };
-        w.event(json!({"ev": "new", "labs": start, "s": proj(&b)}));
+        w.event(json!({"ev": "new", "labs": start, "s": proj(&b), "octets": T::KIND, "how": how % 7}));
         for _ in 0..plen {
             let len = b.len();
             let room = 254usize.saturating_sub(len);
@@ -73,9 +88,9 @@ fn main() {
             };
             let (op, arg): (&str, Value) = match rng.below(20) {
                 0..=4 => ("push", json!([])),
-                5..=7 => ("append_slice", json!([size(&mut rng)])),
+                5..=7 => ("append_slice", json!([size(rng)])),
                 8 | 9 => ("end_label", json!([])),
-                10..=12 => ("append_label", json!([size(&mut rng)])),
+                10..=12 => ("append_label", json!([size(rng)])),
                 13 => {
                     let wlen = match rng.below(4) {
                         0 => 0,
@@ -84,7 +99,7 @@ fn main() {
                         _ => rng.below(255) as usize,
                     };
                     let wlen = if wlen == 1 { 2 } else { wlen };
-                    ("append_name", json!(rel_lens(wlen, &mut rng)))
+                    ("append_name", json!(rel_lens(wlen, rng)))
                 }
                 14 => ("append_digits", json!([1 + rng.below(3)])),
                 15 | 16 => (
@@ -100,10 +115,10 @@ fn main() {
                         _ => rng.below(255) as usize,
                     };
                     let wlen = if wlen == 1 { 2 } else { wlen };
-                    ("append_origin", json!(rel_lens(wlen, &mut rng)))
+                    ("append_origin", json!(rel_lens(wlen, rng)))
                 }
             };
-            let (res, out) = apply(&mut b, op, &arg, &mut fill);
+            let (res, out) = apply(&mut b, op, &arg, fill);
             if is_consuming(op) || out[0] != "none" {
                 w.event(json!({"ev": op, "a": arg, "res": res, "out": out}));
             } else {
@@ -114,7 +129,4 @@ fn main() {
                 break;
             }
         }
-    }
-    let n = w.finish();
-    println!("events {}", n);
 }
